@@ -119,6 +119,8 @@ inductive Tree
                                          -- stub transport is effect `id` of kind N (network/simpleHTTP.go returns its call as a MonadIO)
   | G (id : Nat)                         -- like N; in the harness the first run after a gated Subscribe blocks at the gate
                                          -- (after logging) until the script opens it
+  | JM (id : Nat) (x : Tree)             -- Just(obj): the VALUE is itself the MonadIO object built from x (interface{} API);
+                                         -- it is a value like any other (code 1000+id), x is not run
   | FR (t : Tree)                        -- t.FlatMap(Just)
   | FL (c : Nat) (t b : Tree)            -- t.FlatMap(func(x){ log call c x; return b[x] })
   | FC (c : Nat) (t b1 b2 : Tree)        -- t.FlatMap(func(x){ log call c x; if x even return b1[x] else b2[x] })
@@ -147,6 +149,7 @@ def den : Tree → Nat → M Nat
   | .W id, v => new (userEffect id (valW v id))
   | .H id, _ => new (userEffect id (valN id))
   | .G id, _ => new (userEffect id (valN id))
+  | .JM id _, _ => just (1000 + id)
   | .FR t, v => flatMap (den t v) just
   | .FL c t b, v => flatMap (den t v) (kont c (fun x => den b x))
   | .FC c t b1 b2, v => flatMap (den t v) (kont c (fun x => if x % 2 = 0 then den b1 x else den b2 x))
@@ -165,6 +168,7 @@ def run : Tree → (v n : Nat) → Nat × List Kind
   | .W id, v, n => (valW v id n, [.eff id])
   | .H id, _, n => (valN id n, [.eff id])
   | .G id, _, n => (valN id n, [.eff id])
+  | .JM id _, _, _ => (1000 + id, [])
   | .FR t, v, n => run t v n
   | .FL c t b, v, n =>
     let r1 := run t v n
@@ -254,6 +258,10 @@ def parseTree : Nat → List String → Option (Tree × List String)
     | "W", i :: rest => i.toNat?.map (fun i => (.W i, rest))
     | "H", i :: rest => i.toNat?.map (fun i => (.H i, rest))
     | "G", i :: rest => i.toNat?.map (fun i => (.G i, rest))
+    | "JM", i :: rest =>
+      match i.toNat? with
+      | some i => (parseTree fuel rest).map (fun (x, rest) => (.JM i x, rest))
+      | none => none
     | "FR", rest => (parseTree fuel rest).map (fun (t, rest) => (.FR t, rest))
     | "FL", c :: rest =>
       match c.toNat?, parseTree fuel rest with
